@@ -57,10 +57,13 @@ func (f flakyDomains) GenesisDomain(ctx context.Context, t phase0.DomainType) (p
 
 // signers whose domain provider fails one kind of lookup: a request then ends in an error or in a signature that
 // verifies like any other, never in a signature under some other domain
-var sNoGenesis, sNoEpoch *signer.Service
+var sNoGenesis, sNoEpoch, sNoBuilderType *signer.Service
 
 // refusers are multi-signer accounts whose remote signer returns no signature (e.g. slashing protection)
 var refusers []harness.Acct
+
+// mixPool holds local wallet accounts and remote protecting signers for mixed batches
+var mixPool []harness.Acct
 
 type caseRes struct {
 	bad    []string
@@ -74,6 +77,16 @@ func genBatch(r *rand.Rand, plain, multi []harness.Acct) ([]harness.Acct, string
 	n := 1 + r.Intn(12)
 	out := make([]harness.Acct, 0, n)
 	pat := ""
+	if len(mixPool) > 0 && r.Intn(8) == 0 {
+		// local wallet accounts and remote protecting signers in one batch, any order: such a batch is either refused
+		// or signed correctly
+		for i := 0; i < n; i++ {
+			a := mixPool[r.Intn(len(mixPool))]
+			out = append(out, a)
+			pat += fmt.Sprintf("%T", a)[8:9]
+		}
+		return out, "mixed:" + pat
+	}
 	if r.Intn(3) == 0 {
 		for i := 0; i < n; i++ {
 			out = append(out, plain[r.Intn(len(plain))])
@@ -128,6 +141,16 @@ func run(c *harness.Ctx) {
 			sNoEpoch = fs
 		}
 	}
+	{
+		sp := harness.NewSpec(spe, nil)
+		delete(sp.M, "DOMAIN_APPLICATION_BUILDER") // a node whose specification does not list the builder domain type
+		fs, err := signer.New(ctx, signer.WithLogLevel(zerolog.Disabled), signer.WithMonitor(nullmetrics.New()), signer.WithClientMonitor(nullmetrics.New()), signer.WithSpecProvider(sp), signer.WithDomainProvider(harness.RecDomains{}))
+		if err != nil {
+			c.Inconclusive("signer.New: " + err.Error())
+			return
+		}
+		sNoBuilderType = fs
+	}
 	refusers = nil
 	for i := 0; i < 3; i++ {
 		a := harness.NewAcct(harness.KindMulti, "D", fmt.Sprintf("refuser%d", i), 40+i, phase0.ValidatorIndex(40+i), nil)
@@ -142,6 +165,7 @@ func run(c *harness.Ctx) {
 		multi = append(multi, harness.NewAcct(harness.KindDist, "D", fmt.Sprintf("d%d", i), 30+i, phase0.ValidatorIndex(30+i), nil))
 	}
 	single := append(append(append([]harness.Acct{}, plain...), prot...), multi...)
+	mixPool = append(append([]harness.Acct{}, plain...), prot...)
 
 	n := c.N(12000, 300000)
 	workers := 8
@@ -321,7 +345,9 @@ func oneRequest(ctx context.Context, s *signer.Service, r *rand.Rand, spe uint64
 			res.sample = map[string]any{"kind": kind, "pattern": pat, "slot": slot, "committees": fmt.Sprint(cis), "err": fmt.Sprint(err)}
 			res.fp = fmt.Sprintf("%s|%s", kind, pat)
 			if err != nil || len(sigs) != len(as) {
-				res.bad = append(res.bad, "unexpected-error:"+kind)
+				if !strings.HasPrefix(pat, "mixed:") { // a mixed batch may be refused
+					res.bad = append(res.bad, "unexpected-error:"+kind)
+				}
 				break
 			}
 			for i, a := range as {
@@ -374,7 +400,9 @@ func oneRequest(ctx context.Context, s *signer.Service, r *rand.Rand, spe uint64
 		res.sample = map[string]any{"kind": kind, "pattern": pat, "slot": slot, "err": fmt.Sprint(err)}
 		res.fp = fmt.Sprintf("%s|%s", kind, pat)
 		if err != nil || len(sigs) != len(as) {
-			res.bad = append(res.bad, "unexpected-error:"+kind)
+			if !strings.HasPrefix(pat, "mixed:") { // a mixed batch may be refused
+				res.bad = append(res.bad, "unexpected-error:"+kind)
+			}
 			break
 		}
 		for i, a := range as {
@@ -390,7 +418,9 @@ func oneRequest(ctx context.Context, s *signer.Service, r *rand.Rand, spe uint64
 		res.sample = map[string]any{"kind": kind, "pattern": pat, "slot": slot, "subcommittees": subs, "err": fmt.Sprint(err)}
 		res.fp = fmt.Sprintf("%s|%s", kind, pat)
 		if err != nil || len(sigs) != len(as) {
-			res.bad = append(res.bad, "unexpected-error:"+kind)
+			if !strings.HasPrefix(pat, "mixed:") { // a mixed batch may be refused
+				res.bad = append(res.bad, "unexpected-error:"+kind)
+			}
 			break
 		}
 		for i, a := range as {
@@ -403,7 +433,9 @@ func oneRequest(ctx context.Context, s *signer.Service, r *rand.Rand, spe uint64
 		res.sample = map[string]any{"kind": kind, "pattern": pat, "epoch": epoch, "err": fmt.Sprint(err)}
 		res.fp = fmt.Sprintf("%s|%s", kind, pat)
 		if err != nil || len(sigs) != len(as) {
-			res.bad = append(res.bad, "unexpected-error:"+kind)
+			if !strings.HasPrefix(pat, "mixed:") { // a mixed batch may be refused
+				res.bad = append(res.bad, "unexpected-error:"+kind)
+			}
 			break
 		}
 		for i, a := range as {
@@ -435,7 +467,9 @@ func oneRequest(ctx context.Context, s *signer.Service, r *rand.Rand, spe uint64
 		res.sample = map[string]any{"kind": kind, "pattern": pat, "slot": slot, "err": fmt.Sprint(err)}
 		res.fp = fmt.Sprintf("%s|%s", kind, pat)
 		if err != nil || len(sigs) != len(as) {
-			res.bad = append(res.bad, "unexpected-error:"+kind)
+			if !strings.HasPrefix(pat, "mixed:") { // a mixed batch may be refused
+				res.bad = append(res.bad, "unexpected-error:"+kind)
+			}
 			break
 		}
 		for i, a := range as {
@@ -453,11 +487,14 @@ func oneRequest(ctx context.Context, s *signer.Service, r *rand.Rand, spe uint64
 		}
 		reg := &builderapi.VersionedValidatorRegistration{Version: builderspec.BuilderVersionV1, V1: &builderv1.ValidatorRegistration{FeeRecipient: fr, GasLimit: gl, Timestamp: time.Unix(ts, 0), Pubkey: pk}}
 		sgn := s
-		if r.Intn(6) == 0 {
+		switch r.Intn(10) {
+		case 0, 1:
 			sgn = sNoGenesis // the genesis domain cannot be obtained
+		case 2:
+			sgn = sNoBuilderType // the specification does not list the builder domain type
 		}
 		sig, err := sgn.SignValidatorRegistration(ctx, a, reg)
-		res.sample = map[string]any{"kind": kind, "account": a.FullName(), "gas_limit": gl, "timestamp": ts, "err": fmt.Sprint(err), "genesis_domain_lookup_fails": sgn != s}
+		res.sample = map[string]any{"kind": kind, "account": a.FullName(), "gas_limit": gl, "timestamp": ts, "err": fmt.Sprint(err), "genesis_domain_lookup_fails": sgn == sNoGenesis, "spec_without_builder_domain_type": sgn == sNoBuilderType}
 		res.fp = fmt.Sprintf("%s|%T|%v", kind, a, sgn != s)
 		if sgn != s && err != nil {
 			break // refused: fine
